@@ -70,12 +70,18 @@ func prewriteMutation(db *NoKV.DB, reader *Reader, req *pb.PrewriteRequest, mut 
 	default:
 		return keyErrorAbort(fmt.Sprintf("unsupported mutation op %v", mut.Op))
 	}
+	minCommitTs := req.MinCommitTs
+	if lock != nil && lock.MinCommitTs > minCommitTs {
+		// A repeated prewrite (RPC or raft retry) must not undo a push: the reader that pushed
+		// the minimum commit ts was promised not to see this transaction below it.
+		minCommitTs = lock.MinCommitTs
+	}
 	newLock := Lock{
 		Primary:     kv.SafeCopy(nil, req.PrimaryLock),
 		Ts:          req.StartVersion,
 		TTL:         req.LockTtl,
 		Kind:        mut.Op,
-		MinCommitTs: req.MinCommitTs,
+		MinCommitTs: minCommitTs,
 	}
 	encoded := EncodeLock(newLock)
 	if err := db.SetVersionedEntry(kv.CFLock, key, lockColumnTs, encoded, 0); err != nil {
